@@ -53,7 +53,7 @@ func init() {
 var metas = []struct{ labels, ann map[string]string }{
 	// (a label and an annotation that give the same tag name; two annotation keys that one alternative regex maps to the same name)
 	{map[string]string{"app": "web", "team/x": "a"}, map[string]string{"gostatsd.atlassian.com/tag1": "v1", "other": "o", "gostatsd.atlassian.com/app": "frontend", "gostatsd.atlassian.com/er": "e2"}},
-	{map[string]string{"app": "db"}, map[string]string{"gostatsd.atlassian.com/tag1": "v2", "gostatsd.atlassian.com/tag2": "w"}},
+	{map[string]string{"app": "db", "team/canary": ""}, map[string]string{"gostatsd.atlassian.com/tag1": "v2", "gostatsd.atlassian.com/tag2": "w", "gostatsd.atlassian.com/marker": ""}}, // (marker-style keys: the value is empty)
 }
 
 func mkPod(name string, v variant) *core_v1.Pod {
